@@ -80,6 +80,11 @@ func coreSuite() []modelSpec {
 	add("TypeCharacter", "Character quote", func(m *model) *Obj { return m.char("'") })
 	add("TypeRange", "Range", func(m *model) *Obj { return m.rng("b", "y") })
 	add("TypeDot", "Dot", func(m *model) *Obj { return m.dot() })
+	add("TypeRange", "Range from NUL", func(m *model) *Obj { return m.rng("\x00", "b") })
+	add("TypeRange", "Range to the last code point", func(m *model) *Obj { return m.rng("y", "\U0010FFFF") })
+	add("TypeRange", "Range over all code points", func(m *model) *Obj { return m.rng("\x00", "\U0010FFFF") })
+	add("TypeCharacter", "Character NUL", func(m *model) *Obj { return m.char("\x00") })
+	add("TypeCharacter", "Character last code point", func(m *model) *Obj { return m.char("\U0010FFFF") })
 	add("TypePredicate", "Predicate", func(m *model) *Obj { return m.predicate("__pred0()") })
 	add("TypeStateChange", "StateChange", func(m *model) *Obj { return m.state("__st0()") })
 	add("TypeNil", "Nil inside a sequence", func(m *model) *Obj { return m.seq(m.opaqueChild(true, false), m.nilNode()) })
